@@ -19,7 +19,8 @@ def seeds_table():
     rows = ["| seed | the change, and what it needs to show | which check caught it (and what had to be strengthened) |", "|---|---|---|"]
     for m in sorted(glob.glob(os.path.join(HERE, "seeded/*/meta.json"))):
         j = json.load(open(m))
-        rows.append(f"| {m.split('/')[-2]} | {j['needs_to_manifest']} | {j['caught_by']} |")
+        cb = j['caught_by'] + ((" **Retired**: " + j['retired']) if j.get('retired') else "")
+        rows.append(f"| {m.split('/')[-2]} | {j['needs_to_manifest']} | {cb} |")
     return "\n".join(rows)
 
 
